@@ -10,6 +10,7 @@ import (
 
 	"github.com/freeconf/yang/meta"
 	"github.com/freeconf/yang/node"
+	"github.com/freeconf/yang/nodeutil"
 	"github.com/freeconf/yang/parser"
 	"github.com/freeconf/yang/val"
 
@@ -69,7 +70,7 @@ func c10module() (*meta.Module, error) {
 	return m, err
 }
 
-var c10schemaKinds = []string{"enum", "enum-list", "bits", "bits-list", "identityref", "identityref-list", "union", "union-list", "leafref", "keys"}
+var c10schemaKinds = []string{"enum", "enum-list", "bits", "bits-list", "identityref", "identityref-list", "union", "union-list", "leafref", "keys", "json-numbers"}
 
 func c10SchemaCases() int { return len(c10schemaKinds) }
 
@@ -279,6 +280,75 @@ func c10Schema(c *core.Ctx, k int) {
 		}
 	case "keys":
 		c10Keys(c, m)
+	case "json-numbers":
+		c10JSONNumbers(c)
+	}
+}
+
+// a decoded JSON number reaching a typed leaf through the library's JSON reader: exact or an error
+func c10JSONNumbers(c *core.Ctx) {
+	m, err := parser.LoadModuleFromString(nil, `module j { namespace "urn:j"; prefix j; revision 2020-01-01;
+  leaf i64 { type int64; } leaf u64 { type uint64; } leaf i32 { type int32; } leaf u8 { type uint8; }
+  leaf-list l64 { type int64; } leaf un { type union { type int64; type string; } } }`)
+	if err != nil {
+		c.Violate("schema/load", "%v", err)
+		return
+	}
+	lits := []string{"0", "-1", "255", "256", "2147483647", "2147483648", "9007199254740992", "9007199254740993", "9007199254740995", "9999999999999999", "-9007199254740993",
+		"10000000000000001", "72057594037927937", "9223372036854775807", "9223372036854775808", "-9223372036854775808", "-9223372036854775809", "18446744073709551615", "18446744073709551616",
+		"1.0", "1.5", "1e3", "1e19", "12345678901234567890", "1E2", "-0", "0.1e1", "100000000000000000000"}
+	leaves := []struct {
+		name string
+		f    val.Format
+	}{{"i64", val.FmtInt64}, {"u64", val.FmtUInt64}, {"i32", val.FmtInt32}, {"u8", val.FmtUInt8}, {"l64", val.FmtInt64List}, {"un", val.FmtInt64}}
+	for _, lf := range leaves {
+		for _, lit := range lits {
+			doc := fmt.Sprintf("{\"%s\":%s}", lf.name, lit)
+			if lf.name == "l64" {
+				doc = fmt.Sprintf("{\"l64\":[1,%s]}", lit)
+			}
+			c.Eval()
+			tag := "json-number->" + lf.name
+			var v val.Value
+			var gerr error
+			pv, st := core.Try(func() {
+				n, e := nodeutil.ReadJSON(doc)
+				if e != nil {
+					gerr = e
+					return
+				}
+				v, gerr = node.NewBrowser(m, n).Root().GetValue(lf.name)
+			})
+			if pv != nil {
+				c.Violate("panic/"+tag, "reading %s panicked: %v\n%s", doc, pv, core.TrimStack(st))
+				continue
+			}
+			want, _ := new(big.Rat).SetString(lit)
+			c.Shape("%s/err=%v/digits%d", tag, gerr != nil, len(strings.TrimLeft(lit, "-")))
+			if gerr != nil || v == nil {
+				lo, hi, _ := fmtRange(lf.f.Single())
+				if want != nil && want.IsInt() && want.Cmp(lo) >= 0 && want.Cmp(hi) <= 0 && !strings.ContainsAny(lit, ".eE") {
+					c.Violate("must-convert/"+tag, "reading %s failed (%v) although the number is a plain integer inside the type", doc, gerr)
+				}
+				continue
+			}
+			var got *big.Rat
+			switch x := v.Value().(type) {
+			case []int64:
+				got = new(big.Rat).SetInt64(x[len(x)-1])
+			case string:
+				// the union fell to its string member: the text must be the literal
+				if x != lit {
+					c.Violate("inexact/"+tag+"/union-text", "reading %s gave the string %q", doc, x)
+				}
+				continue
+			default:
+				got = bigOf(x)
+			}
+			if got == nil || want == nil || got.Cmp(want) != 0 {
+				c.Violate("inexact/"+tag, "reading %s gave %v, the literal denotes %s", doc, v, lit)
+			}
+		}
 	}
 }
 
